@@ -37,10 +37,11 @@ type staticPkg struct {
 }
 
 type funcBody struct {
-	name string // types.Func full name or "<parent>$lit<n>"
-	pkg  *staticPkg
-	body *ast.BlockStmt
-	lits []*ast.FuncLit // go-statement literals, in source order
+	name   string // types.Func full name or "<parent>$lit<n>"
+	pkg    *staticPkg
+	body   *ast.BlockStmt
+	lits   []*ast.FuncLit // go-statement literals, in source order
+	params []*ast.Ident   // parameter names, flattened, in order (nil for literals)
 }
 
 type staticAnalysis struct {
@@ -212,6 +213,14 @@ func loadStatic(root string) (*staticAnalysis, error) {
 						continue
 					}
 					fb := &funcBody{name: obj.FullName(), pkg: sp, body: fd.Body}
+					for _, fl := range fd.Type.Params.List {
+						if len(fl.Names) == 0 {
+							fb.params = append(fb.params, nil)
+						}
+						for _, n := range fl.Names {
+							fb.params = append(fb.params, n)
+						}
+					}
 					sa.funcs[fb.name] = fb
 					sa.collectLits(fb)
 				}
@@ -242,11 +251,13 @@ func (sa *staticAnalysis) collectLits(fb *funcBody) {
 type heldLock struct{ class, mode string }
 
 type walker struct {
-	sa     *staticAnalysis
-	locks  map[string]bool // acquire contexts, channel ops, spawns
-	fields map[string]bool
-	stack  []string
-	alias  map[types.Object]string // local variable -> channel name it was loaded from
+	sa           *staticAnalysis
+	locks        map[string]bool // acquire contexts, channel ops, spawns
+	fields       map[string]bool
+	stack        []string
+	alias        map[types.Object]string // local variable -> channel name it was loaded from
+	lockAlias    map[types.Object]string // local variable / parameter -> lock class of the mutex it points to
+	unrecognised string                  // non-empty: a Lock-like operation on a mutex the pass cannot classify
 }
 
 func heldText(h []heldLock) string {
@@ -349,6 +360,69 @@ func trackedField(key string) string {
 }
 
 // lockClass: the class of the mutex a Lock/RLock/Unlock/RUnlock call operates on ("" = not a tracked lock)
+// isSyncLocker: t is (a pointer to) sync.Mutex or sync.RWMutex
+func isSyncLocker(t types.Type) bool {
+	for {
+		if p, ok := t.(*types.Pointer); ok {
+			t = p.Elem()
+			continue
+		}
+		break
+	}
+	if n, ok := t.(*types.Named); ok && n.Obj().Pkg() != nil && n.Obj().Pkg().Path() == "sync" {
+		return n.Obj().Name() == "Mutex" || n.Obj().Name() == "RWMutex"
+	}
+	return false
+}
+
+// lockOfExpr resolves an expression denoting a mutex (h.mutex, &host.MACEntry.Row, a local alias of one, a
+// *sync.RWMutex parameter bound at an inlined call site, a struct embedding sync.Mutex) to its lock class
+// through the selected FIELD (struct type + field name); "" = cannot classify.
+func (w *walker) lockOfExpr(pkg *staticPkg, e ast.Expr) string {
+	for {
+		switch x := e.(type) {
+		case *ast.ParenExpr:
+			e = x.X
+			continue
+		case *ast.StarExpr:
+			e = x.X
+			continue
+		case *ast.UnaryExpr:
+			if x.Op == token.AND {
+				e = x.X
+				continue
+			}
+		}
+		break
+	}
+	switch x := e.(type) {
+	case *ast.SelectorExpr:
+		if fs := pkg.info.Selections[x]; fs != nil && fs.Kind() == types.FieldVal {
+			if c, ok := lockClassOf[ownerField(fs)]; ok {
+				return c
+			}
+		}
+	case *ast.Ident:
+		if obj := pkg.info.Uses[x]; obj != nil {
+			if c, ok := w.lockAlias[obj]; ok {
+				return c
+			}
+			if v, ok := obj.(*types.Var); ok && v.Pkg() != nil && v.Parent() == v.Pkg().Scope() && v.Name() == "icmpTable" {
+				return "Ping"
+			}
+		}
+	}
+	// a value whose type embeds the mutex (h.Lock() on Handler6 / dhcp4 Handler)
+	if tv, ok := pkg.info.Types[e]; ok {
+		if c, ok := lockClassOf[typeKey(tv.Type)+".Mutex"]; ok {
+			return c
+		}
+	}
+	return ""
+}
+
+// lockClass: the class of the mutex a Lock/RLock/Unlock/RUnlock call operates on ("" = not a lock operation,
+// "?" = a lock operation on a mutex the pass cannot classify: the entry function becomes `unrecognised`)
 func (w *walker) lockClass(pkg *staticPkg, call *ast.CallExpr) (class, op string) {
 	se, ok := call.Fun.(*ast.SelectorExpr)
 	if !ok {
@@ -364,23 +438,13 @@ func (w *walker) lockClass(pkg *staticPkg, call *ast.CallExpr) (class, op string
 		return "", ""
 	}
 	op = se.Sel.Name
-	// h.mutex.Lock(): X is the field; h.Lock(): promoted through the embedded Mutex
-	if xs, ok := se.X.(*ast.SelectorExpr); ok {
-		if fs := pkg.info.Selections[xs]; fs != nil && fs.Kind() == types.FieldVal {
-			if c, ok := lockClassOf[ownerField(fs)]; ok {
-				return c, op
-			}
-		}
-	}
-	if tv, ok := pkg.info.Types[se.X]; ok && len(sel.Index()) > 1 {
-		if c, ok := lockClassOf[typeKey(tv.Type)+".Mutex"]; ok {
-			return c, op
-		}
-	}
-	if id, ok := se.X.(*ast.Ident); ok && id.Name == "icmpTable" {
-		return "Ping", op
+	if c := w.lockOfExpr(pkg, se.X); c != "" {
+		return c, op
 	}
 	w.sa.unrec["lock:"+exprText(se.X)]++
+	if w.unrecognised == "" {
+		w.unrecognised = "lock-receiver:" + exprText(se.X)
+	}
 	return "?", op
 }
 
@@ -489,6 +553,15 @@ func (w *walker) expr(fb *funcBody, e ast.Node, held []heldLock, depth int, writ
 			}
 			return false
 		case *ast.SelectorExpr:
+			if sel := fb.pkg.info.Selections[x]; sel != nil && sel.Kind() == types.MethodVal && sel.Obj().Pkg() != nil &&
+				sel.Obj().Pkg().Path() == "sync" {
+				switch x.Sel.Name {
+				case "Lock", "RLock", "Unlock", "RUnlock": // unlock := h.mutex.Unlock ; defer unlock()
+					if w.unrecognised == "" {
+						w.unrecognised = "lock-method-value:" + exprText(x)
+					}
+				}
+			}
 			if !writes[x] {
 				w.access(w.fieldOfExpr(fb.pkg, x), false, held)
 			}
@@ -596,6 +669,26 @@ func (w *walker) call(fb *funcBody, c *ast.CallExpr, held []heldLock, depth int)
 		w.sa.unrec["depth:"+callee.name]++
 		return held
 	}
+	// a *sync.RWMutex / channel passed as an argument stands for the caller's lock / channel inside the callee
+	for i, a := range c.Args {
+		if i >= len(callee.params) || callee.params[i] == nil {
+			continue
+		}
+		pobj := callee.pkg.info.Defs[callee.params[i]]
+		if pobj == nil {
+			continue
+		}
+		if tv, ok := pkg.info.Types[a]; ok && isSyncLocker(tv.Type) {
+			if cl := w.lockOfExpr(pkg, a); cl != "" {
+				w.lockAlias[pobj] = cl
+			} else if w.unrecognised == "" {
+				w.unrecognised = "lock-argument:" + exprText(a)
+			}
+		}
+		if ch := w.chanName(pkg, a); ch != "" {
+			w.alias[pobj] = ch
+		}
+	}
 	return w.function(callee, held, depth+1)
 }
 
@@ -636,6 +729,27 @@ func (w *walker) stmt(fb *funcBody, s ast.Stmt, held []heldLock, depth int, defe
 	case *ast.ExprStmt:
 		return w.expr(fb, x.X, held, depth, nil)
 	case *ast.DeclStmt:
+		// var row *sync.RWMutex = &host.MACEntry.Row
+		if gd, ok := x.Decl.(*ast.GenDecl); ok {
+			for _, sp := range gd.Specs {
+				vs, ok := sp.(*ast.ValueSpec)
+				if !ok || len(vs.Names) != len(vs.Values) {
+					continue
+				}
+				for i, id := range vs.Names {
+					if tv, ok := pkg.info.Types[vs.Values[i]]; ok && isSyncLocker(tv.Type) {
+						if c := w.lockOfExpr(pkg, vs.Values[i]); c != "" && pkg.info.Defs[id] != nil {
+							w.lockAlias[pkg.info.Defs[id]] = c
+						} else if w.unrecognised == "" {
+							w.unrecognised = "lock-alias:" + exprText(vs.Values[i])
+						}
+					}
+					if ch := w.chanName(pkg, vs.Values[i]); ch != "" && pkg.info.Defs[id] != nil {
+						w.alias[pkg.info.Defs[id]] = ch
+					}
+				}
+			}
+		}
 		return w.expr(fb, x.Decl, held, depth, nil)
 	case *ast.AssignStmt:
 		for _, r := range x.Rhs {
@@ -651,6 +765,20 @@ func (w *walker) stmt(fb *funcBody, s ast.Stmt, held []heldLock, depth int, defe
 				}
 			}
 			wr[b] = true
+			// row := &host.MACEntry.Row : remember which mutex the local stands for
+			if id, ok := l.(*ast.Ident); ok && i < len(x.Rhs) && len(x.Lhs) == len(x.Rhs) {
+				if tv, ok := pkg.info.Types[x.Rhs[i]]; ok && isSyncLocker(tv.Type) {
+					obj := pkg.info.Defs[id]
+					if obj == nil {
+						obj = pkg.info.Uses[id]
+					}
+					if c := w.lockOfExpr(pkg, x.Rhs[i]); c != "" && obj != nil {
+						w.lockAlias[obj] = c
+					} else if w.unrecognised == "" {
+						w.unrecognised = "lock-alias:" + exprText(x.Rhs[i])
+					}
+				}
+			}
 			// ch := h.closeChan : remember which channel the local stands for
 			if id, ok := l.(*ast.Ident); ok && i < len(x.Rhs) && len(x.Lhs) == len(x.Rhs) {
 				if ch := w.chanName(pkg, x.Rhs[i]); ch != "" {
@@ -855,11 +983,15 @@ func (sa *staticAnalysis) analyse(fn string) (locks, unlocked string, ok bool) {
 	if fb == nil {
 		return "", "", false
 	}
-	w := &walker{sa: sa, locks: map[string]bool{}, fields: map[string]bool{}, alias: map[types.Object]string{}}
+	w := &walker{sa: sa, locks: map[string]bool{}, fields: map[string]bool{}, alias: map[types.Object]string{},
+		lockAlias: map[types.Object]string{}}
 	// a literal's enclosing function supplies the lits table used to name nested go statements
 	left := w.function(fb, nil, 0)
 	if len(left) != 0 {
 		sa.unrec["held-at-exit:"+fn]++
+	}
+	if w.unrecognised != "" { // never a silent drop: no case is emitted for this entry function
+		return "unrecognised:" + w.unrecognised, "unrecognised:" + w.unrecognised, true
 	}
 	return setText(w.locks), setText(w.fields), true
 }
